@@ -52,6 +52,9 @@ class Prop(Check):
         "LinkLoc.C28_linecol", "LinkLoc.C28_linecol_identifies", "LinkLoc.C28_syntax", "LinkLoc.C28_syntax_raised",
         "LinkLoc.C28_ref", "LinkLoc.C28_total", "LinkLoc.C28_unresolvable_pinned_false",
         "LinkLoc.C28_notunique_pinned_false",
+        "LinkLoc.C28_linecol_cr_dead", "LinkLoc.C28_unresolvable_first", "LinkLoc.C28_unresolvable_raised",
+        "LinkLoc.C28_unresolvable_iff", "LinkLoc.C28_giveup_round_unique", "LinkLoc.C28_unresolvable_computed",
+        "LinkLoc.C28_spec_reflects", "LinkLoc.C28_ref_strong", "LinkLoc.C28_linecol_meaning",
     ]
     DRIVER = "Drivers/Positions.lean"
     QUICK_CASES = 480
@@ -70,7 +73,8 @@ class Prop(Check):
     ASSUMPTIONS = [
         "positions handed to pos_to_linecol lie inside the text (<= len): true for parse-tree nodes and NoMatch.position",
         "a scope provider is a function of (reference, number of earlier calls for it); the wrapper used by the harness is",
-        "models are resolved round-robin in load order (main first, imports depth-first) as get_included_models returns them",
+        "models are resolved round-robin in load order (main first, imports depth-first) as get_included_models returns them "
+        "(compared for loads ending in 'unresolvable': the complete sequence of provider calls against LinkLoc.askTrace)",
     ]
 
     # ------------------------------------------------------------------ gen
@@ -219,6 +223,9 @@ class Prop(Check):
             return f"implementation raised {obs['type']} ({obs['msg']}); model: {out}"
         if "crash" in out:
             return f"model predicts a non-textX exception; implementation: {obs['outcome']}"
+        if any(rid is None for rid, _ in obs.get("log", [])):
+            return ("a scope provider was asked for a reference at a (file, offset) that is not the start of a "
+                    "reference text of the project (the reference offsets handed to the model are not the real ones)")
         if "ok" in out:
             if obs["outcome"] != "ok":
                 return f"model loads the project; implementation raised {obs.get('kind')} at {obs.get('file')}:{obs.get('line')}:{obs.get('col')}"
@@ -230,6 +237,21 @@ class Prop(Check):
         want = (e["kind"], e["file"], e["line"], e["col"])
         if got != want:
             return f"error (kind, file, line, col): implementation {got}, model {want}"
+        if e["kind"] == "unresolvable":
+            # the declarative specification (LinkLocSpec.lean: giveUpRound / firstPending / askTrace,
+            # theorem C28_unresolvable_computed) against the real code: location, and the complete
+            # sequence of scope-provider calls (rounds 0..K, models in load order, pending
+            # references in text order, each asked once per round)
+            spec = out.get("spec")
+            if not spec:
+                return f"the specification predicts no give-up round; loop model and implementation: {want}"
+            swant = ("unresolvable", spec["file"], spec["line"], spec["col"])
+            if got != swant:
+                return f"error (kind, file, line, col): implementation {got}, specification {swant}"
+            asked = [rid for rid, _ in obs.get("log", [])]
+            if asked != spec["asked"]:
+                return (f"scope-provider calls (reference ids in order): implementation {asked}, "
+                        f"specification {spec['asked']} ({spec['rounds']} rounds)")
         return None
 
     # --------------------------------------------------------------- oracle
